@@ -31,6 +31,7 @@ extern int fw_hook_rs_log;
 extern double fw_phys_pos[8];
 extern int fw_hook_relay_log;
 extern int fw_hook_mqtt_log;
+extern int fw_hook_form_log;   /* print FVAR <var> <hex of the C string in the buffer> <terminated inside> */
 extern int fw_hook_input_log;
 extern int fw_verify_oracle;
 extern unsigned long long fw_verify_len;
